@@ -256,8 +256,45 @@ def run(ctx, report):
                 else:
                     R2.violation(inst, 'callsite:%s:%s' % (fname, norm(n)), '%s: %s -- %s' % (fname, norm(n), why), where(sem, n))
 
+    # ------------------------------------------------------------------ D5 auxiliary carry
+    R5 = report.rule('C04.D5', 'AF is the carry/borrow out of bit 3: bit 4 of (operand ^ operand ^ result)', floor=1)
+    faf = I.g.get('update_flag_af')
+    if not isinstance(faf, FuncVal):
+        raise AnalysisError('helper update_flag_af not found')
+    npar = len(faf.node.args.args)
+    if npar < 3:
+        R5.violation('update_flag_af', 'af:helper:arity:%d' % npar, 'update_flag_af receives only %d argument(s) -- the result -- and sets AF to bit 4 of the result; AF is the carry out of bit 3, '
+                     'bit 4 of a ^ b ^ result, so the two operands are needed (wrong for about half of all operand values of add/adc/sub/sbb/cmp/neg/inc/dec/xadd/cmps/scas)' % npar,
+                     where(sem, faf.node), witness='add eax, ebx with eax = 0x10, ebx = 0: AF = 1 (processor: 0)')
+    else:
+        res = I.run(faf, [X, Y, Z])
+        aff = res[0][1]
+        aff = aff[0] if isinstance(aff, list) and aff else aff
+        okaf = False
+        detail = show(aff) if isinstance(aff, Term) else str(aff)
+        if isinstance(aff, Term) and aff.kind == 'Aff' and aff.dst.kind == 'Id' and aff.dst.name == 'af' and aff.src.kind == 'Cond':
+            cnd = aff.src.cond
+            if cnd.kind == 'Op' and cnd.op == '&' and len(cnd.args) == 2:
+                for t_, k_ in ((cnd.args[0], cnd.args[1]), (cnd.args[1], cnd.args[0])):
+                    if k_.kind == 'Int' and k_.mod.val == 0x10 and t_.kind == 'Op' and t_.op == '^' and sorted(a_.name for a_ in t_.args if a_.kind == 'Id') == ['x', 'y', 'z'] and len(t_.args) == 3:
+                        okaf = True
+        if okaf:
+            R5.ok('update_flag_af', sample='AF = ((a ^ b ^ result) & 0x10) != 0')
+            # call sites pass the instruction operands and the result; dec subtracts 1
+            for fname, fn in sorted(sem.funcs.items()):
+                for n in walk_no_nested(fn):
+                    if isinstance(n, ast.Call) and u(n.func) == 'update_flag_af':
+                        inst = '%s:%s' % (fname, norm(n))
+                        if len(n.args) == 3:
+                            R5.ok(inst, sample=inst)
+                        else:
+                            R5.violation(inst, 'af:callsite:%s' % fname, '%s calls update_flag_af with %d argument(s)' % (fname, len(n.args)), where(sem, n))
+        else:
+            R5.violation('update_flag_af', 'af:helper:%s' % detail[:60], 'update_flag_af is not bit 4 of a ^ b ^ result: %s' % detail[:120], where(sem, faf.node))
+
     # ------------------------------------------------------------------ D3
     R3 = report.rule('C04.D3', 'status flags written = architecturally defined (no kept flag touched); zf/sf/pf derive from the result', floor=150)
+    R6 = report.rule('C04.D6', 'no register outside the architectural outputs is assigned', floor=150)
     families = {'j': 'jcc', 'set': 'setcc', 'cmov': 'cmovcc'}
     for inst in L.lift_all():
         if inst.func is None or inst.unknown:
@@ -297,6 +334,29 @@ def run(ctx, report):
             if 'df' in wid and not e['D']:
                 R3.violation(iid, 'flags:%s:touched:df' % key_base, '%s writes df' % name, where(sem, inst.func.node), count=False)
                 bad = True
+            # D6: registers written = architectural outputs (over-writing another register changes the result)
+            allowed = set(STATUS) | {'df', 'eip', 'ac', 'iopl_f', 'nt', 'rf', 'tf', 'vif', 'vip', 'vm', 'i_f'}
+            w_items = list(e['W'])
+            if rname == 'imul':
+                w_items = ['eax', 'edx'] if len(inst.args or []) == 1 else ['op0']
+            for item in w_items:
+                if item.startswith('op'):
+                    k = int(item[2:])
+                    if inst.args and k < len(inst.args):
+                        b0 = inst.args[k]
+                        while b0.kind == 'Slice':
+                            b0 = b0.arg
+                        if b0.kind == 'Id':
+                            allowed.add(b0.name)
+                elif not item.startswith('[') and item != '-':
+                    allowed.add(item)
+            extra = set(x for x in wid if x not in allowed and not x.startswith('vm_') and not x.startswith('i_'))
+            R6.instances += 1
+            R6.nontrivial.add('%s:%s' % (rname, inst.form))
+            if extra:
+                R6.violation(iid, 'extra-write:%s:%s' % (key_base, ','.join(sorted(extra))), '%s (%s): the lifted semantics assign %s, which the instruction does not modify (architectural outputs: %s)'
+                             % (name, inst.func.name, sorted(extra), ','.join(e['W']) or '-'), where(sem, inst.func.node), count=False,
+                             witness='66 99 (cwd) assigns eax' if name == 'cwd' else None)
             # zf/sf/pf from the result
             if e['Z'] and inst.args and not bad:
                 op0 = inst.args[0]
@@ -312,6 +372,21 @@ def run(ctx, report):
                                 R3.violation(iid, 'znp:%s' % key_base, '%s: zf is computed from %s but the destination receives %s'
                                              % (name, show(xz)[:80], show(dsts[0])[:80]), where(sem, inst.func.node), count=False)
                                 bad = True
+                    elif e['Z'] in ('cmps', 'scas'):
+                        def mem_via(t, reg):
+                            return t.kind == 'Mem' and any(y.kind == 'Id' and y.name == reg for y in walk_terms(t.arg))
+                        okz = xz.kind == 'Op' and xz.op == '-' and len(xz.args) == 2 and mem_via(xz.args[1], 'edi')
+                        if okz and e['Z'] == 'cmps':
+                            okz = mem_via(xz.args[0], 'esi')
+                        if okz and e['Z'] == 'scas':
+                            a0 = xz.args[0]
+                            while a0.kind == 'Slice':
+                                a0 = a0.arg
+                            okz = a0.kind == 'Id' and a0.name == 'eax'
+                        if not okz:
+                            R3.violation(iid, 'znp:%s:order' % key_base, '%s: the flags are those of %s; IA-32 computes %s - [edi]' % (name, show(xz)[:80], '[esi]' if e['Z'] == 'cmps' else 'accumulator'),
+                                         where(sem, inst.func.node), count=False, witness="'repe cmpsb; jb' branches the wrong way")
+                            bad = True
                     elif e['Z'] in ('cmp', 'test') and len(inst.args) >= 2:
                         want_op = '-' if e['Z'] == 'cmp' else '&'
                         if not (xz.kind == 'Op' and xz.op == want_op and len(xz.args) == 2 and xz.args[0] == inst.args[0] and xz.args[1] == inst.args[1]):
@@ -397,6 +472,8 @@ MUTANTS = [
     ('add-znp-operand', 'miasmx/arch/ia32_sem.py', "def add(info, a, b):\n    e= []\n    c = ExprOp('+', a, b)\n    e+=update_flag_arith(c)", "def add(info, a, b):\n    e= []\n    c = ExprOp('+', a, b)\n    e+=update_flag_arith(a)", 'C04.D3'),
     ('adc-rebinds-b', 'miasmx/arch/ia32_sem.py', "    c = ExprOp('+',\n               a,\n               ExprOp('+',\n                      b,\n                      ExprCompose([(ExprInt32(0), 1, a.get_size()),\n                                   (cf, 0, 1)])))\n    e+=update_flag_arith(c)\n    e+=update_flag_af(c)\n    e+=update_flag_add(a, b, c)",
      "    b = ExprOp('+',\n               b,\n               ExprCompose([(ExprInt32(0), 1, a.get_size()),\n                            (cf, 0, 1)]))\n    c = ExprOp('+', a, b)\n    e+=update_flag_arith(c)\n    e+=update_flag_af(c)\n    e+=update_flag_add(a, b, c)", 'C04.D2'),
+    ('cwd-swaps', 'miasmx/arch/ia32_sem.py', "def cwd(info):\n    # dx:ax = sign extension of ax (cdq handles both operand sizes)\n    return cdq(info)\n", "def cwd(info):\n    e = []\n    e.append(ExprAff(eax, edx))\n    e.append(ExprAff(edx, eax))\n    return e\n", 'C04.D6'),
+    ('cmps-reversed', 'miasmx/arch/ia32_sem.py', "    e+=l_cmp(info, b, a)\n    off = a.get_size()/8", "    e+=l_cmp(info, a, b)\n    off = a.get_size()/8", 'C04.D3'),
     ('add-of-formula', 'miasmx/arch/ia32_sem.py', "    return ExprAff(of, get_op_msb(((a ^ c) & (~(a ^ b)))))", "    return ExprAff(of, get_op_msb(((a ^ c) & (a ^ b))))", 'C04.D2'),
     ('shr-mask-size', 'miasmx/arch/ia32_sem.py', "def shr(info, a, b):\n    e= []\n    shifter = ExprOp('&',b, ExprInt_from(b, 0x1f))",
      "def shr(info, a, b):\n    e= []\n    shifter = ExprOp('&',b, ExprInt_from(b, a.get_size()-1))", 'C04.D4'),
